@@ -142,6 +142,10 @@ Definition st_flush (ideal : N) (s : st) : st :=
   | Lzy o _ u => Lzy [] true (st_flush_into ideal u o)
   | _ => s
   end.
+(* LazyFlushable.InitUnderlyingDb: w.underlying and the embedded reader's underlying are both
+   re-pointed to the produced store (once); nothing is flushed *)
+Definition st_init (s : st) : st :=
+  match s with Lzy o _ u => Lzy o true u | _ => s end.
 Definition st_drop (s : st) : st :=
   match s with Flu o u => Flu [] u | Lzy o i u => Lzy [] i u | _ => s end.
 Definition st_nfp (s : st) : option nat :=
@@ -249,6 +253,7 @@ Definition run_op1 (ideal : N) (r : rstate) (o : op) : rstate * list obs :=
   | OLit i h p s0 => (set_lives r (set_nth i (Some (st_iter (h_view h s) p s0)) None (r_lives r)), [])
   | OLNext i n => let '(l, out) := live_next (r_lives r) i n in (set_lives r l, [out])
   | OLRel i => (set_lives r (set_nth i None None (r_lives r)), [])
+  | OInit d => (set_store r (st_upd d st_init s), [])
   end.
 
 Definition run_op (lsafe : bool) (ideal : N) (r : rstate) (o : op) : rstate * list obs :=
